@@ -434,11 +434,12 @@ def _poly(n, f):
 class SR(Sym):
     """real number  n * prod_i atom_i**p_i  with atoms strictly positive z3 terms (p_i < 0 = denominator) and n an arbitrary
     z3 Real term.  sg in {'z','p','nn','n',None}: syntactically known sign."""
-    __slots__ = ("n", "f", "sg")
+    __slots__ = ("n", "f", "sg", "src")
 
-    def __init__(self, n, f=None, sg=None):
+    def __init__(self, n, f=None, sg=None, src=None):
         self.n = n
         self.f = f or {}
+        self.src = src        # additive provenance ('add', x, y) | ('scale', x, k): lets exp(x+y) be lifted as exp(x)exp(y)
         if sg is None and is_num(n):
             sg = _sg_of_const(numval(n))
         if sg == "z":
@@ -520,16 +521,16 @@ class SR(Sym):
             return self
         sg = _sg_add(self.sg, o.sg)
         if _feq(self.f, o.f):
-            return SR(t_add(self.n, o.n), self.f, sg)
+            return SR(t_add(self.n, o.n), self.f, sg, ("add", self, o))
         com = _common(self.f, o.f)
         a = _poly(self.n, _fmul(self.f, com, -1))
         b = _poly(o.n, _fmul(o.f, com, -1))
-        return SR(t_add(a, b), com, sg)
+        return SR(t_add(a, b), com, sg, ("add", self, o))
 
     __radd__ = __add__
 
     def __neg__(self):
-        return SR(t_neg(self.n), self.f, _sg_neg(self.sg))
+        return SR(t_neg(self.n), self.f, _sg_neg(self.sg), ("scale", self, Fraction(-1)))
 
     def __pos__(self):
         return self
@@ -573,7 +574,12 @@ class SR(Sym):
         sg = _sg_mul(self.sg, o.sg)
         if sg == "z":
             return SR(_ZERO)
-        return SR(t_mul(self.n, o.n), _fmul(self.f, o.f), sg)
+        src = None
+        if o.is_const():
+            src = ("scale", self, o.constval())
+        elif self.is_const():
+            src = ("scale", o, self.constval())
+        return SR(t_mul(self.n, o.n), _fmul(self.f, o.f), sg, src)
 
     __rmul__ = __mul__
 
@@ -673,10 +679,8 @@ class SR(Sym):
 
     def exp(self):
         """np.exp(SR) : only meaningful as 'log-space SR -> linear space'."""
-        e = E_atom(self.term())
-        if is_num(e):
-            return SR(e)
-        return SR(_ONE, {e.get_id(): (e, 1)}, "p")
+        c, f = _exp_of_sr(self)
+        return SR(R(c), f, "p")
 
     def log(self):
         """np.log(x): linear -> log space."""
@@ -755,6 +759,52 @@ class SR(Sym):
 # ----------------------------------------------------------------------------------------
 # log-space scalar
 # ----------------------------------------------------------------------------------------
+def _lincomb(x, scale, out, depth=0):
+    """expand an SR into  sum coeff_i * leaf_i  over its additive provenance (leaves: anything not built by +,-,const*)"""
+    src = x.src
+    if src is None or depth > 200:
+        if x.is_const():
+            if x.constval() != 0:
+                t = R(1)
+                k = ("const",)
+                prev = out.get(k, (t, Fraction(0)))
+                out[k] = (t, prev[1] + scale * x.constval())
+            return
+        t = x.term()
+        k = t.get_id()
+        prev = out.get(k, (t, Fraction(0)))
+        out[k] = (t, prev[1] + scale)
+        return
+    if src[0] == "add":
+        _lincomb(src[1], scale, out, depth + 1)
+        _lincomb(src[2], scale, out, depth + 1)
+    else:
+        _lincomb(src[1], scale * Fraction(src[2]), out, depth + 1)
+
+
+def _exp_of_sr(x):
+    """(c, f): exp(x) as a monomial of exp-atoms, one atom per additive leaf of x"""
+    comb = {}
+    _lincomb(x, Fraction(1), comb)
+    f = {}
+    for k, (t, coeff) in comb.items():
+        if coeff == 0:
+            continue
+        if k == ("const",):
+            e = E_atom(R(coeff))
+            coeff = Fraction(1)
+        else:
+            e = E_atom(t)
+        if is_num(e):
+            continue
+        if abs(coeff).denominator > 64:
+            # irrational-looking multiple: make the scaled leaf its own atom
+            e = E_atom(t * R(coeff))
+            coeff = Fraction(1)
+        f = _fmul(f, {e.get_id(): (e, coeff)})
+    return Fraction(1), f
+
+
 class SL(Sym):
     """log(V),  V = c * prod_i atom_i**p_i * E(a) >= 0.
     c: Fraction >= 0; atoms: z3 terms known to be >= 0 (variables, sums of monomials, exp-atoms), p_i rational (negative =
@@ -815,10 +865,13 @@ class SL(Sym):
         """anything that may sit in a log-space array -> SL"""
         if isinstance(x, SL):
             return x
+        # exp(t) of a linear-space term t is one positive atom E(t); products of atoms are kept as products (no merging of
+        # exponents), so that the same quantity reached as E(x)E(y) on two routes is the same monomial
         if isinstance(x, SR):
             if x.is_const() and x.constval() == 0:
                 return SL.one()
-            return SL(Fraction(1), {}, x.term(), "p")
+            c, f = _exp_of_sr(x)
+            return SL(c, f, None, "p")
         if isinstance(x, _PYNUM):
             xf = float(x)
             if xf == -math.inf:
@@ -827,7 +880,8 @@ class SL(Sym):
                 return SL.one()
             if math.isinf(xf) or math.isnan(xf):
                 return SL.bad("float %r in log space" % xf)
-            return SL(Fraction(1), {}, R(x if isinstance(x, (int, Fraction)) else xf), "p")
+            e = E_atom(R(x if isinstance(x, (int, Fraction)) else xf))
+            return SL(Fraction(1), {e.get_id(): (e, 1)}, None, "p")
         raise SymError("cannot lift %r to SL" % (x,))
 
     # V as a fraction of z3 terms (E atom materialised)
